@@ -71,6 +71,11 @@ def specOK (r : Req) (o : Obs) : Bool :=
   else
     o.status == 401 && o.www.isSome && !wellFormedValid r
 
+/-- with skip paths: a request whose path is literally one of the configured skip paths is exempt
+    (the handler runs); every other request is subject to the oracle above -/
+def gateSpecOK (skip : Bool) (r : Req) (o : Obs) : Bool :=
+  if skip then o.ran else specOK r o
+
 end Auth
 
 /-! ## cors -/
